@@ -3,7 +3,10 @@ package e2e
 import (
 	"crypto/tls"
 	"fmt"
+	"net"
+	"strconv"
 	"strings"
+	"sync"
 	"time"
 
 	"github.com/bluenviron/gortsplib/v5"
@@ -28,6 +31,7 @@ type HostileCase struct {
 	Medias       int       `json:"medias"`
 	Query        bool      `json:"query,omitempty"`
 	Tunnel       string    `json:"tunnel,omitempty"` // "", http (RTSP over HTTP), ws (RTSP over WebSocket); the protocol is TCP then
+	OddPortBusy  bool      `json:"odd_port_busy,omitempty"`
 	Rules        []SrvRule `json:"rules"`
 	Program      []CliOp   `json:"program"`
 }
@@ -92,6 +96,36 @@ func runHostile(c HostileCase) (*hostileStats, error) {
 		cl.Protocol = protoPtr(gortsplib.ProtocolTCP)
 	case "mcast":
 		cl.Protocol = protoPtr(gortsplib.ProtocolUDPMulticast)
+	}
+	// OddPortBusy: the first odd (RTCP) port the client tries to bind for a UDP pair is taken by somebody else at that very
+	// moment, so that the pair's even port was bound in vain and another pair has to be found
+	var busyMu sync.Mutex
+	var busy []net.PacketConn
+	releaseBusy := func() {
+		busyMu.Lock()
+		defer busyMu.Unlock()
+		for _, pc := range busy {
+			pc.Close()
+		}
+		busy = nil
+	}
+	defer releaseBusy()
+	if c.OddPortBusy {
+		var once sync.Once
+		cl.ListenPacket = func(network, address string) (net.PacketConn, error) {
+			if _, ps, err := net.SplitHostPort(address); err == nil {
+				if p, _ := strconv.Atoi(ps); p%2 == 1 {
+					once.Do(func() {
+						if pc, err := net.ListenPacket(network, address); err == nil {
+							busyMu.Lock()
+							busy = append(busy, pc)
+							busyMu.Unlock()
+						}
+					})
+				}
+			}
+			return net.ListenPacket(network, address)
+		}
 	}
 	switch c.Tunnel {
 	case "http":
@@ -183,6 +217,19 @@ func runHostile(c HostileCase) (*hostileStats, error) {
 		}
 	}
 
+	// from the first Close() on, the garbage collector is held: a socket the client dropped without closing it must still be
+	// there when the census looks, not tidied up by a finalizer
+	var gcRelease func()
+	holdOnce := func() {
+		if gcRelease == nil {
+			gcRelease = holdGC()
+		}
+	}
+	defer func() {
+		if gcRelease != nil {
+			gcRelease()
+		}
+	}()
 	for _, op := range c.Program {
 		ok := true
 		switch op.Op {
@@ -265,6 +312,7 @@ func runHostile(c HostileCase) (*hostileStats, error) {
 		case "idle":
 			time.Sleep(time.Duration(op.N) * time.Millisecond)
 		case "close":
+			holdOnce()
 			ok = call("Close", func() error { cl.Close(); return nil })
 			clientClosed = true
 		}
@@ -273,6 +321,7 @@ func runHostile(c HostileCase) (*hostileStats, error) {
 		}
 	}
 	if failure == nil && !clientClosed {
+		holdOnce()
 		call("Close", func() error { cl.Close(); return nil })
 	}
 	if failure == nil {
@@ -291,6 +340,7 @@ func runHostile(c HostileCase) (*hostileStats, error) {
 		return st, failure
 	}
 	closeSrv()
+	releaseBusy()
 	if left := base0.newLibGoroutines(3 * time.Second); len(left) > 0 {
 		return st, fmt.Errorf("%d library goroutine(s) still running 3 s after Close returned:\n%s\nserver transcript (tail):\n%s", len(left), trimStacks(left, 6), tail(srv.Transcript(), 12))
 	}
